@@ -154,10 +154,10 @@ Definition Pending45m (w : world) (o : op) : bool :=
   | _ => false
   end.
 
-(* second refinement: every move inside one model is covered (containers too) *)
+(* second refinement: every move inside one model (containers too) and the copies are covered; what remains is the
+   move between two models *)
 Definition Pending45x (w : world) (o : op) : bool :=
   match o with
-  | OpCopy _ _ | OpCopyAt _ _ _ => true
   | OpMove h mv | OpMoveAt h mv _ => negb (same_model w h mv)
   | _ => false
   end.
